@@ -28,16 +28,79 @@ STRINGLIKE = {"MYSQL_TYPE_STRING", "MYSQL_TYPE_VAR_STRING", "MYSQL_TYPE_BLOB", "
               "MYSQL_TYPE_SET", "MYSQL_TYPE_ENUM", "MYSQL_TYPE_DECIMAL", "MYSQL_TYPE_VARCHAR", "MYSQL_TYPE_BIT", "MYSQL_TYPE_NEWDECIMAL", "MYSQL_TYPE_GEOMETRY", "MYSQL_TYPE_JSON"}
 
 
-def arm_of(b, p, ct_names):
+def _const_coltype(prog, b, t):
+    """variant name of a `ColumnType` constant operand (`&ColumnType::X` promoted, or a plain constant)"""
+    if not isinstance(t, tuple):
+        return None
+    if t[0] == "ref":
+        t = t[1]
+    if t[0] == "const" and t[1][0] == "promoted":
+        pb = prog.bodies.get("%s::promoted[%d]" % (t[1][3] if len(t[1]) > 3 else b.path, t[1][1]))
+        if pb is None:
+            return None
+        for _, _, s in pb.stmts():
+            if s["k"] == "assign" and s["rv"]["k"] == "agg" and s["rv"].get("ak") == "adt" and s["rv"]["adt"].endswith("constants::ColumnType"):
+                return s["rv"]["vname"]
+    if t[0] == "agg" and len(t) > 3 and (t[2] or "").endswith("constants::ColumnType"):
+        return t[3] if isinstance(t[3], str) else None
+    return None
+
+
+def arm_of(b, p, ct_names, prog=None):
+    """The set of column types under which this path runs: the intersection of every test of
+    `c.coltype` on the path (match arms, `==` / `!=` against a constant, `matches!`)."""
+    allowed = None
+    universe = set(ct_names.values())
+
+    def meet(sset):
+        nonlocal allowed
+        allowed = set(sset) if allowed is None else (allowed & set(sset))
     for i, blk in enumerate(p.blocks[:-1]):
         t = b.term(blk)
-        if t["k"] == "switch":
-            v = p.origin_op(t["discr"], i)
-            if v[0] == "discr" and T.is_field(T.peel(v[1]), "coltype"):
-                nx = p.blocks[i + 1]
-                vals = [x for x, g in zip(t["vals"], t["tgts"]) if g == nx]
-                return tuple(sorted(ct_names.get(int(x), x) for x in vals)) if vals else ("other",)
-    return None
+        if t["k"] != "switch":
+            continue
+        v = p.origin_op(t["discr"], i)
+        nx = p.blocks[i + 1]
+        if v[0] == "discr" and T.is_field(T.peel(v[1]), "coltype"):
+            vals = [x for x, g in zip(t["vals"], t["tgts"]) if g == nx]
+            named = {ct_names.get(int(x), x) for x in t["vals"]}
+            if vals:
+                meet({ct_names.get(int(x), x) for x in vals})
+            else:
+                meet(universe - named)
+        elif prog is not None and T.is_call(v, r"PartialEq(<[^>]*>)?>?::(eq|ne)$") and "0" in t["vals"] and len(v[2]) == 2:
+            a, c = v[2]
+            if not T.is_field(T.peel(a), "coltype"):
+                a, c = c, a
+            name = _const_coltype(prog, b, c) if T.is_field(T.peel(a), "coltype") else None
+            if name is None:
+                continue
+            truth = nx != t["tgts"][t["vals"].index("0")]
+            is_eq = v[1].endswith("::eq")
+            meet({name} if truth == is_eq else universe - {name})
+    if allowed is None:
+        return None
+    # a complement of the tested types is reported as ("other",) like the catch-all arm of a match
+    if len(allowed) > len(universe) // 2:
+        return ("other",)
+    return tuple(sorted(allowed)) if allowed else ("other",)
+
+
+def zero_tests(b, p):
+    """[(tested term, is_zero)] for every `x == 0` / `x != 0` / `!(..)` decision taken on the path"""
+    out = []
+    for i, blk in enumerate(p.blocks[:-1]):
+        t = b.term(blk)
+        if t["k"] != "switch" or "0" not in t["vals"]:
+            continue
+        v = p.origin_op(t["discr"], i)
+        truth = p.blocks[i + 1] != t["tgts"][t["vals"].index("0")]
+        while isinstance(v, tuple) and v[0] == "un" and v[1] == "Not":
+            v = v[2]
+            truth = not truth
+        if isinstance(v, tuple) and v[0] == "bin" and v[1] in ("Ne", "Eq") and T.is_const_int(v[3], 0):
+            out.append((v[2], truth if v[1] == "Eq" else not truth))
+    return out
 
 
 def accessor(t):
@@ -175,14 +238,24 @@ def run(ctx):
         b = prog.one(r"^<%s as value::encode::ToMysqlValue>::to_mysql_bin$" % re.escape(ty))
         ctx.fn(b)
         seen = set()
+        covered = {}
         for p in enumerate_paths(b):
             if p.end != "return":
                 continue
-            arm = arm_of(b, p, ct_names)
+            arm = arm_of(b, p, ct_names, prog)
             ems = wire.path_emissions(prog, p)
             cls = classify_return(p)
+            # a path may run under a subset of a specified arm (`a == X || a == Y` splits what a match arm joins)
+            sub = arm
+            if arm and arm != ("other",):
+                for k_ in table:
+                    if set(arm) <= set(k_):
+                        covered.setdefault(k_, set()).update(arm)
+                        arm = k_
+                        break
             if arm in table:
-                seen.add(arm)
+                if covered.get(arm, set(arm)) == set(arm):
+                    seen.add(arm)
                 got = [(e.kind, e.width) for e in ems]
                 ok = got == table[arm]
                 if ok and ty == "f32" and arm == ("MYSQL_TYPE_DOUBLE",):
@@ -201,15 +274,18 @@ def run(ctx):
         b = prog.one(r"^<%s as value::encode::ToMysqlValue>::to_mysql_bin$" % re.escape(ty))
         ctx.fn(b)
         n_ = 0
+        covered = set()
         for p in enumerate_paths(b):
             if p.end != "return":
                 continue
-            arm = arm_of(b, p, ct_names)
+            arm = arm_of(b, p, ct_names, prog)
             ems = wire.path_emissions(prog, p)
             cls = classify_return(p)
-            if arm == arms:
+            if arm and arm != ("other",) and set(arm) <= set(arms):
                 if cls == "err":
                     continue
+                covered.update(arm)
+                arm = arms
                 n_ += 1
                 ok, why = check(b, p, ems)
                 # length-prefix self-consistency
@@ -224,6 +300,8 @@ def run(ctx):
                 ctx.ob("C07.layouts", not ems and cls == "err", "%s accepts column type(s) %s" % (ty, list(arm or ())[:4]), fn=b.path, construct="refusal", callee=",".join(arm or ())[:60],
                        where=b.where(p.blocks[-1]), nontrivial=False)
         ctx.floor("C07.layouts", "writing paths of %s" % ty, n_, 1)
+        ctx.ob("C07.layouts", covered == set(arms), "%s is encoded for column types %s (need exactly %s)" % (ty, sorted(covered), list(arms)), fn=b.path, construct="arm-present",
+               callee=",".join(arms), nontrivial=False)
 
     def chk_date(b, p, ems):
         want = ["year", "month", "day"]
@@ -241,14 +319,9 @@ def run(ctx):
         # the short form only when the fraction is zero
         if ok:
             frac_zero = None
-            for i, blk in enumerate(p.blocks[:-1]):
-                t = b.term(blk)
-                if t["k"] == "switch" and "0" in t["vals"]:
-                    v = p.origin_op(t["discr"], i)
-                    if isinstance(v, tuple) and v[0] == "bin" and v[1] in ("Ne", "Eq") and T.is_const_int(v[3], 0) and accessor(v[2]) == "nanosecond":
-                        truth = p.blocks[i + 1] != t["tgts"][t["vals"].index("0")]
-                        nz = truth if v[1] == "Ne" else not truth
-                        frac_zero = not nz if frac_zero is None else frac_zero
+            for x, z in zero_tests(b, p):
+                if accessor(x) == "nanosecond":
+                    frac_zero = z if frac_zero is None else frac_zero
             ok = frac_zero is not None and ((len(ems) == 7) == frac_zero)
             if not ok:
                 return False, "the 7-byte form must be chosen exactly when the microsecond part is zero (form %d, fraction zero=%s)" % (len(ems), frac_zero)
@@ -260,16 +333,11 @@ def run(ctx):
         if len(ems) == 1:
             # zero form: both total seconds and micros are tested zero on this path
             tests = set()
-            for i, blk in enumerate(p.blocks[:-1]):
-                t = b.term(blk)
-                if t["k"] == "switch" and "0" in t["vals"]:
-                    v = p.origin_op(t["discr"], i)
-                    if isinstance(v, tuple) and v[0] == "bin" and v[1] == "Eq" and T.is_const_int(v[3], 0):
-                        truth = p.blocks[i + 1] != t["tgts"][t["vals"].index("0")]
-                        if truth and T.is_call(v[2], r"Duration::as_secs$"):
-                            tests.add("secs")
-                        if truth and T.is_call(v[2], r"Duration::subsec_micros$"):
-                            tests.add("micros")
+            for x, z in zero_tests(b, p):
+                if z and T.is_call(x, r"Duration::as_secs$"):
+                    tests.add("secs")
+                if z and T.is_call(x, r"Duration::subsec_micros$"):
+                    tests.add("micros")
             ok = ems[0].const_bytes() == b"\x00" and tests == {"secs", "micros"}
             return ok, "the zero-length TIME form is emitted on a path that established %s (need total seconds == 0 and microseconds == 0)" % sorted(tests)
         ws = [e.width for e in ems]
